@@ -412,6 +412,17 @@ func init() {
 				specs = append(specs, seqSpec{Cfg: cfg, Alpha: alpha, Depth: d, Checks: "db", Mode: mode, Probes: probes})
 			}
 			sa, sp := cmpAlpha("shortlex")
+			// tables of many blocks (eight keys, one entry per block) at level 0, as a transaction's
+			// table and at a deeper level: direction changes and re-positioning that cross block
+			// boundaries far from an earlier position, movement depth 4
+			specs = append(specs, seqSpec{Cfg: "wide/bytewise", Alpha: []string{"put:c", "del:d", "snap", "q"}, Depth: 1, Checks: "db", Mode: "m4few,many-blocks",
+				Probes: []string{"", "a", "c", "cc", "e", "h", "i"},
+				Prefixes: [][]string{
+					{"w:+a,+b,+c,+d,+e,+f,+g,+h", "re"},
+					{"w:+a,+b,+c,+d,+e,+f,+g,+h", "re", "cr"},
+					{"w:+a,+c,+e,+g", "re", "w:+b,+d,+f,+h", "re"},
+					{"otr", "tput:a", "tput:b", "tput:c", "tput:d", "tput:e", "tput:f", "tput:g", "tput:h"},
+				}})
 			if quick {
 				add("flushy/bytewise", c02Alpha, 3, "m2", nil)
 				add("deep/bytewise", c02Alpha, 3, "m3few", nil)
